@@ -5,7 +5,7 @@ from ..rm import q, r, F1, F2, h32
 ID = 'C05'
 EXES = ['release']
 RULE = ('each event is P*k or k*P for P = [d]G in one of the representations (z=1, library Jacobian, lambda-rescaled, the three '
-        'identity forms) or an arbitrary curve point (for G2: outside the order-r subgroup), k from scalar classes (0, 1, 2, r-1, r-2, '
+        'identity forms) or a point given only by its coordinates (G1: arbitrary curve point), k from scalar classes (0, 1, 2, r-1, r-2, '
         '(r+-1)/2, 2^i, 2^i-1, long runs, sparse, limb patterns, small, uniform); the returned triple is judged by the model: '
         'coordinates < q, on the curve, affine image equal to plain double-and-add over affine arithmetic. Derived laws '
         '(a+b)P = aP+bP, (ab)P = a(bP), 0P = O, 1P = P, (r-1)P = -P and [r-1]G + G = O with G != O are evaluated by the library and '
@@ -97,7 +97,7 @@ def run(ctx, spec):
         reg, i = pr.let(g + '.mul', O, h32(k))
         exp[i] = ('%s.mul/id-%s' % (g, idr), None, (which, 'id', idr, k), False)
         # arbitrary curve point (outside the subgroup for G2)
-        T = points.rand_curve_point(rng, which)
+        T = points.rand_curve_point(rng, 1) if which == 1 else rm.gmul(2, rng.randrange(1, r))   # G2: the property covers the subgroup only
         k = rng.choice([0, 1, 2, 3, r - 1, rng.randrange(1 << 16), rng.randrange(r)])
         Treg = pr.let(g + '.lit', rm.jac_lit(F, T, gen.lam_for(rng, which) if rng.random() < 0.5 else None))[0]
         reg, i = pr.let(g + '.mul', Treg, h32(k))
